@@ -7,6 +7,7 @@ import asyncio
 import contextlib
 import functools
 import itertools
+import logging
 import random
 from typing import Any
 
@@ -18,7 +19,7 @@ from vlib.peers_secure import SecureRoutingPeer, SecureServer
 from xknx.io import ip_secure
 from xknx.io.ip_secure import SecureGroup, SecureSession
 from xknx.io.transport import TCPTransport, UDPTransport
-from xknx.knxip import KNXIPFrame, SecureWrapper, SessionRequest, TimerNotify
+from xknx.knxip import KNXIPFrame, RoutingIndication, SecureWrapper, SessionRequest, TimerNotify, TunnellingRequest
 
 LEVEL = "exploration"
 TECHNIQUE = (
@@ -37,7 +38,7 @@ LEVEL_NOTE = (
     "list is the list of those frames, compared structurally (body and header) with what the registered callback received. Judged: no "
     "exception out of data_received_callback / into the loop handler (TCP and UDP), LINE-event budget (termination), TCP delivery list for "
     "every chunking. Streams containing an unreadable header (octet 0 != 06h or announced length < 6) lose framing by definition: only "
-    "exceptions, termination and the frames before the garbage are judged there. UDP deliveries are counted, not judged."
+    "exceptions, termination and the frames before the garbage are judged there. UDP deliveries are counted, not judged. A share of the TCP/UDP/secure histories runs with the xknx loggers at DEBUG (recording handler, restored afterwards); the oracle is the same."
 )
 SHARDS = {"quick": 1, "thorough": 16}
 TIMEOUT = {"quick": 300, "thorough": 3000}
@@ -182,6 +183,7 @@ def _run_stream(ctx: Any, kind: str, items: list[tuple[str, bytes, Any]], chunks
         "n_frames": len(items),
         "chunk_lengths": [len(c) for c in chunks][:200],
     }
+    witness["debug_logging"] = logging.getLogger("xknx.raw_socket").isEnabledFor(logging.DEBUG)
     plan = _RAISE[0]
     if plan is not None:
         witness["callback_raises"] = {"exception": plan["name"], "at_deliveries": sorted(plan["at"])}
@@ -485,6 +487,44 @@ def tcp_part(ctx: Any, rng: Any, pools: Pools) -> None:
                 run_stream(ctx, kind, items, _split(data, cuts), via="loop" if i % 3 == 0 else "direct", loop=loop2)
     finally:
         _RAISE[0] = None
+    # 7. the logging configuration as a workload dimension: xknx loggers at DEBUG (recording handler), frames longer than
+    #    64 / 128 / 256 / 1000 octets split late (after most of the frame arrived), valid frames before and after
+    with g.debug_logging(ctx):
+        lens = (70, 130, 260, 1000) if ctx.quick else (65, 70, 129, 130, 257, 260, 1000, 4000)
+        for j, n in enumerate(lens):
+            if not ctx.mine(j):
+                continue
+            for maker in (lambda k: g.frame_bytes(RoutingIndication(rng.randbytes(k - 6))),
+                          lambda k: g.frame_bytes(TunnellingRequest(7, 9, rng.randbytes(k - 10))),
+                          lambda k: g.header(0xFFFF, k) + rng.randbytes(k - 6)):
+                long_frame = maker(n)
+                frame, _exc = _isolated(long_frame)
+                item = ("valid", long_frame, frame) if frame is not None else ("malformed", long_frame, None)
+                items = [("valid", *rng.choice(pools.valid)), item, ("valid", *rng.choice(pools.valid)), ("valid", *rng.choice(pools.valid))]
+                data = b"".join(d for _k, d, _f in items)
+                start = len(items[0][1])
+                end = start + n
+                kind = "debug-logging-long-frame-split-late"
+                ctx.count("tcp_debug_logging_streams")
+                late = sorted({start + 6, start + 63, start + 64, start + 65, start + 66, start + 127, start + 129, start + 257, end - 30, end - 1} & set(range(start + 1, end)))
+                for c in late:
+                    run_stream(ctx, kind, items, _split(data, [c]))
+                for _ in range(ctx.scale(3, 10)):
+                    c1 = rng.randrange(start + 1, end)
+                    c2 = rng.randrange(start + 1, end)
+                    run_stream(ctx, kind, items, _split(data, sorted({c1, c2})), via="loop" if rng.random() < 0.3 else "direct", loop=loop2)
+                run_stream(ctx, kind, items, [data[: end - 1], data[end - 1 :]])
+        # and a share of the ordinary long streams again, now with DEBUG logging
+        for i in range(ctx.scale(40, 800)):
+            kind = kinds[i % len(kinds)]
+            items = _mk_stream(rng, pools, kind, rng.randrange(3, 20))
+            if not ctx.mine(i):
+                continue
+            data = b"".join(d for _k, d, _f in items)
+            cuts = sorted(set(rng.randrange(1, len(data)) for _ in range(rng.choice((1, 3, 10))))) if len(data) > 1 else []
+            ctx.count("tcp_debug_logging_streams")
+            run_stream(ctx, kind, items, _split(data, cuts), via="loop" if i % 4 == 0 else "direct", loop=loop2)
+            run_stream(ctx, kind, items, [data])
     loop2.finish()
     # 4. many minimal frames in one chunk (a 256 KiB socket read holds > 40000 of them)
     sizes = ctx.scale((200, 990, 1000, 5000), (200, 990, 1000, 5000, 40000))
@@ -572,7 +612,9 @@ def udp_part(ctx: Any, rng: Any, pools: Pools) -> None:
 
             n_before = len(loop.exceptions)
             budget = 300000 + sum(2000 + 300 * len(d) for _l, d in sample)
-            res = g.budgeted(loop.run, (scenario(),), budget, wall_s=60, heap=False)
+            # the multicast pass runs with the xknx loggers at DEBUG
+            with (g.debug_logging(ctx) if multicast else contextlib.nullcontext()):
+                res = g.budgeted(loop.run, (scenario(),), budget, wall_s=60, heap=False)
             ctx.count("udp_datagrams_through_loop_transport", len(sample))
             exc = res["exc"]
             if isinstance(exc, g.WallBackstop):
@@ -1056,7 +1098,9 @@ def _one_secure_history(ctx: Any, pools: Pools, kind: str, index: int) -> None:
     """Histories draw from their own generator (seed, kind, index) so that a witness can be replayed alone."""
     hrng = random.Random(f"c22-secure/{ctx.seed}/{kind}/{index}")
     random.seed(f"c22-secure-global/{ctx.seed}/{kind}/{index}")  # xknx draws message tags / notify delays from the global generator
-    with _secure_patches([random.Random(hrng.randrange(1 << 30))]):
+    with _secure_patches([random.Random(hrng.randrange(1 << 30))]), (g.debug_logging(ctx) if index % 5 == 4 else contextlib.nullcontext()):
+        if index % 5 == 4:
+            ctx.count("secure_histories_with_debug_logging")
         {"session": secure_session_history, "group": secure_group_history, "sessiondelivery": secure_session_delivery_history}[kind](ctx, hrng, pools, index)
 
 
@@ -1080,7 +1124,7 @@ def run(ctx: Any) -> None:
     )
     ctx.require("tcp_streams_run", "tcp_delivery_lists_equal", "tcp_exhaustive_chunkings", "tcp_frames_delivered", "udp_datagrams_fed",
                 "udp_no_exception", "pool_valid", "pool_malformed_readable_length", "pool_unreadable_header",
-                "tcp_streams_through_loop_transport", "udp_datagrams_through_loop_transport", "tcp_many_frames_one_chunk", "tcp_big_frame_streams", "tcp_raising_callback_streams",
+                "tcp_streams_through_loop_transport", "udp_datagrams_through_loop_transport", "tcp_many_frames_one_chunk", "tcp_big_frame_streams", "tcp_raising_callback_streams", "tcp_debug_logging_streams", "debug_log_records_emitted", "secure_histories_with_debug_logging",
                 "tcp_streams_with_raising_callback_CouldNotParseKNXIP", "tcp_streams_with_raising_callback_IncompleteKNXIPFrame",
                 "secure_session_chunks_fed", "secure_session_handshakes_completed", "secure_session_frames_forwarded_to_callbacks",
                 "secure_group_datagrams_fed", "secure_group_synchronised", "secure_group_frames_forwarded_to_callbacks",
@@ -1156,4 +1200,5 @@ def replay(ctx: Any, witness: dict[str, Any]) -> None:
     for n in witness["chunk_lengths"]:
         chunks.append(data[pos : pos + n])
         pos += n
-    run_stream(ctx, witness["stream_kind"], items, chunks)
+    with (g.debug_logging(ctx) if witness.get("debug_logging") else contextlib.nullcontext()):
+        run_stream(ctx, witness["stream_kind"], items, chunks)
